@@ -109,8 +109,16 @@ pub fn bfs(ctx: &Ctx, name: &str, seed: &Pos, depth: usize, total: &Mutex<Counts
 /// Run the monitors on one enumerated position (E3): state monitors, and one make/take-back per move
 /// if the property needs transitions.
 pub fn visit_built(ctx: &Ctx, p: &Pos, c: &mut Counts) -> (u64, u64) {
-    let g = eng::to_game(p);
     let origin = Origin::Built(p.to_fen_with_ep(if p.ep_adjacent() { p.ep } else { None }));
+    // the position is legal (the enumerators guarantee it): a constructor that panics on it fails every property
+    // quantified over legal positions
+    let g = match crate::util::catch(|| eng::to_game(p)) {
+        Ok(g) => g,
+        Err(e) => {
+            ctx.run.violation("game-constructor-panic", format!("game-constructor-panic|{}", origin.key()), J::obj(vec![("kind", J::s("position")), ("origin", origin.json()), ("check", J::s("game-constructor-panic"))]), format!("Game::from_state panics on the legal position {}: {e}", p.to_fen()));
+            return (1, 0);
+        }
+    };
     let pairs = mo::check_state(ctx, p, &g, &origin, c);
     let mut tr = 0;
     if ctx.mon.needs_transitions() {
@@ -169,6 +177,7 @@ pub struct SweepPlan {
     /// F-CORNER: (white king, black king, further men)
     pub corner: Vec<(u8, u8, Vec<Man>)>,
     pub skip_reach: bool,
+    pub absurd: bool,
 }
 
 pub fn men1() -> Vec<Vec<Man>> {
@@ -290,6 +299,9 @@ pub fn run_plan(ctx: &Ctx, plan: &SweepPlan) -> (u64, u64) {
         add(run_family(ctx, "F-HEAVY", &format!("up to {q} queens, {r} rooks, {bn} bishops, {bn} knights a side, 3 filling orders, both sides to move"), 1, &total, &|_, cb| {
             families::enumerate_heavy(q, r, bn, cb)
         }));
+    }
+    if plan.absurd {
+        add(run_family(ctx, "F-ABSURD", "20..56 queens or rooks of one colour against a shielded bare king, the poor side to move, both colours", 1, &total, &|_, cb| families::enumerate_absurd(cb)));
     }
     if !plan.corner.is_empty() {
         let items = plan.corner.clone();
